@@ -1016,6 +1016,7 @@ Proof.
   apply bind_ok in H as (u8 & _ & H).
   apply bind_ok in H as (u9 & Hvl & H). destruct u9.
   apply bind_ok in H as (u10 & Hva & H). destruct u10.
+  apply bind_ok in H as (u10b & _ & H).
   apply bind_ok in H as (ba1 & Hacca & H). apply accrue_tag in Hacca.
   apply bind_ok in H as (bl1 & Haccl & H). apply accrue_tag in Haccl.
   cbv zeta in H.
